@@ -496,4 +496,40 @@ theorem safe_urlsplit_path_chars (url : Str) (r : SplitResult) (h : safe_urlspli
   have := urlsplit_path_chars _ _ r h c hc
   exact ⟨this.1, this.2.1, this.2.2.1⟩
 
+theorem mem_of_mem_splitFirst_snd (s : Str) (sep c : Char) (hc : c ∈ (splitFirst s sep).2.getD []) :
+    c ∈ s := by
+  have h := (splitFirst_spec_s20 s sep).2
+  cases h2 : (splitFirst s sep).2 with
+  | none => rw [h2] at hc; simp at hc
+  | some b =>
+    rw [h2] at h hc
+    simp only [] at h
+    simp only [Option.getD_some] at hc
+    rw [h]; simp [hc]
+
+/-- the query of a split url holds no TAB / CR / LF (`urlsplit` removes them from the whole url
+before it splits) -/
+theorem urlsplit_query_chars (url dflt : Str) (r : SplitResult) (h : urlsplit url dflt = some r) :
+    ∀ c ∈ r.query, isUnsafeUrlChar c = false := by
+  unfold urlsplit at h
+  simp only [] at h
+  split at h
+  · exact absurd h (by simp)
+  · injection h with h
+    subst h
+    simp only []
+    intro c hc
+    have hc2 := mem_of_mem_splitFirst_snd _ _ _ hc
+    have hc3 := mem_of_mem_splitFirst_fst _ _ _ hc2
+    have hc4 := mem_of_mem_splitNetloc_snd _ _ hc3
+    have hc5 := mem_of_mem_splitScheme_snd _ _ _ hc4
+    unfold cleanUrl at hc5
+    have hc6 := List.mem_filter.mp hc5
+    simpa using hc6.2
+
+theorem safe_urlsplit_query_chars (url : Str) (r : SplitResult) (h : safe_urlsplit url = some r) :
+    ∀ c ∈ r.query, isUnsafeUrlChar c = false := by
+  unfold safe_urlsplit at h
+  exact urlsplit_query_chars _ _ r h
+
 end Ural.C19
